@@ -120,7 +120,7 @@ func (z *zipkinDecoderV2) decodeSpan(rawSpan jx.Raw) error {
 			if err != nil {
 				return err
 			}
-			if z.serviceName != "" {
+			if z.serviceName == "" {
 				z.serviceName = serviceName
 			}
 			return nil
